@@ -235,11 +235,28 @@ def corr_fails(ctx, harn):
     return f
 
 def build_harness(ctx):
+    """4 TUs of 8 configurations each.  A TU is rebuilt only when harness.cpp, the flags or any momo header changed
+    (content hash), so an unchanged tree does not pay the compile time again."""
+    import hashlib, glob
+    h = hashlib.sha256()
+    for f in [os.path.join(ctx.pdir, 'harness.cpp'), os.path.join(ctx.root, 'harness', 'private_access.h')] + \
+            sorted(glob.glob(os.path.join(ctx.repo, 'include', 'momo', '*.h')) + glob.glob(os.path.join(ctx.repo, 'include', 'momo', 'details', '*.h'))):
+        h.update(f.encode()); h.update(open(f, 'rb').read())
+    h.update(ctx.tier.encode())
+    stamp = h.hexdigest()
+    spath = os.path.join(ctx.build, 'harness.stamp')
+    suffix = '' if ctx.quick() else '.san'
+    exes = {k: os.path.join(ctx.build, 'harness%d%s' % (k, suffix)) for k in range(NTU)}
+    if os.path.exists(spath) and open(spath).read() == stamp and all(os.path.exists(e) for e in exes.values()):
+        ctx.stage('build-harness', True)
+        return exes
+    if os.path.exists(spath): os.remove(spath)
     res = ctx.cxx_many([('harness.cpp', 'harness%d' % k, ['-DCFGSET=%d' % k]) for k in range(NTU)])
     harn = {k: res.get('harness%d' % k) for k in range(NTU)}
     if any(v is None for v in harn.values()):
         ctx.stage('build-harness', False, getattr(ctx, 'last_cxx_error', ''))
         return None
+    open(spath, 'w').write(stamp)
     ctx.stage('build-harness', True)
     return harn
 
